@@ -59,6 +59,12 @@ fn with_abort(rng: &mut Rng, base: &ConnCase, j: usize, at: usize, id: u16) -> C
 }
 
 fn run_async(c: &mut Case, case: &ConnCase, what: &str) -> bool {
+    run_async_ext(c, case, what, false)
+}
+
+/// `must_notice`: the abort is known to be buffered before the handler's first read and the handler
+/// reads until an error or end-of-file, so it has to see the connection-aborted error.
+fn run_async_ext(c: &mut Case, case: &ConnCase, what: &str, must_notice: bool) -> bool {
     let model = match conn_model(case) {
         Ok(m) => m,
         Err(e) => {
@@ -68,6 +74,9 @@ fn run_async(c: &mut Case, case: &ConnCase, what: &str) -> bool {
     };
     let rng = Rng::new(c.rng.next_u64());
     let (mut w, _runner) = conn::build_world(case, rng);
+    if must_notice {
+        w.pipe.lock().unwrap().whole_reads = true;
+    }
     let end = w.run(400_000, |_, _| {});
     c.l.evaluations += 1;
     match end {
@@ -101,6 +110,10 @@ fn run_async(c: &mut Case, case: &ConnCase, what: &str) -> bool {
                                 }
                             } else {
                                 c.l.count("handlers_that_never_noticed_the_abort");
+                                if must_notice {
+                                    report(c, case, &w, "buffered-abort-not-reported", format!("[{what}] the AbortRequest was buffered before the handler's first read, the handler read until end-of-file / error, and no read failed with ConnectionAborted (reads ended with {:?})", inv.eofs));
+                                    return false;
+                                }
                             }
                         }
                     }
@@ -237,6 +250,24 @@ fn enumerate(c: &mut Case) {
                 return;
             }
             c.l.count(if foreign { "foreign_id_abort_positions" } else { "active_id_abort_positions" });
+            // a role without input streams: the handler can only learn of the abort if a read
+            // reports it. Deliver everything in one piece over an ideal transport with a buffer that
+            // holds it all (the abort is then buffered before the handler runs) and let the handler
+            // read until end-of-file / error: that read has to fail with the abort error.
+            if !foreign && r.preamble.role == wire::AUTHORIZER && case.wire.len() + 64 <= 16_384 && c.rng.chance(1, 2) {
+                let mut one = case.clone();
+                one.beh = crate::transport::Behaviour::ideal();
+                one.max_piece = usize::MAX;
+                one.buffer = 16_384;
+                one.scripts[j] = crate::handler::Script { ops: vec![Op::ReadToEnd], propagate: c.rng.chance(1, 2), status: one.scripts[j].status };
+                let aborted_later = conn_model(&one).map_or(false, |m| matches!(m.get(j).map(|x| &x.kind), Some(ReqKind::AbortedLater(_))));
+                if aborted_later {
+                    if !run_async_ext(c, &one, &format!("{what}, delivered in one piece"), true) {
+                        return;
+                    }
+                    c.l.count("buffered_aborts_for_roles_without_input");
+                }
+            }
             c.l.sig(mix(crate::rng::hash_bytes(11, &case.wire[..case.wire.len().min(96)]), (at as u64) << 1 | u64::from(foreign)));
             if !foreign && !run_sync(c, &case, j) {
                 return;
@@ -259,12 +290,15 @@ pub fn run(ctx: &Ctx, evidence: Option<&PathBuf>) -> i32 {
     ctx.gate("requests_served_after_an_abort", 50);
     ctx.gate("sync_aborts_after_preamble", 50);
     ctx.gate("sync_aborts_during_params", 20);
+    if !ctx.miri() {
+        ctx.gate("buffered_aborts_for_roles_without_input", 10);
+    }
     ctx.finish(
         "fault_enumeration",
         "for each scripted keep-alive connection (1..3 requests, all roles, management / stray records, handlers reading / buffered-reading / not reading / reading past EOF / awaiting writeable, returning their own Complete(x) or propagating the error): an AbortRequest (body 0..40 B, padding 0..255; one in 16 with a 65281..65535 B body and 255 B padding) is inserted \
          before the first record and after EVERY record of one request's preamble and input streams, for the active id and (sampled) for foreign ids; each variant runs through Token::run under the deterministic executor with short / pending transport, and the active-id variants additionally through request::Parser + stream::Parser directly. \
          Oracle: abort during Params => exactly one EndRequest(RequestComplete, id) from the parser, no handler invocation, following requests served with exact environment / streams / EndRequest; abort later => handler reads deliver only a prefix of E(s), never an end-of-file on the aborted stream, the only error kind is ConnectionAborted, \
-         exactly one EndRequest(RequestComplete) with app status ABRT if the handler propagated the error and its own status otherwise; foreign-id aborts change nothing (full C07 oracle); sync: AbortRequest reported only once the abort header was fed, repeated by later calls, abort header retained as the unread remainder, next request parsed exactly. \
+         exactly one EndRequest(RequestComplete) with app status ABRT if the handler propagated the error and its own status otherwise; foreign-id aborts change nothing (full C07 oracle); for Authorizer requests (no input stream) half of the post-preamble positions are repeated with the whole request delivered in one piece and read in one transport read, and a handler that reads until end-of-file / error: that read must fail with ConnectionAborted; sync: AbortRequest reported only once the abort header was fed, repeated by later calls, abort header retained as the unread remainder, next request parsed exactly. \
          distinct_nontrivial = distinct (connection, abort position, active/foreign id) variants executed and judged (set).",
         &["handlers that exit with Overloaded/UnknownRole are outside C11 (C07 covers the status mapping)", "reference model spec.rs"],
         false,
